@@ -1,12 +1,17 @@
 // c18: local helper functions and constant expressions in rules files are transparent.
-// One abstract description of a Where expression with helper calls is rendered (a) with the helpers and (b) manually inlined
-// (the generator substitutes on its own tree); both are converted (IR, Src/Line normalised) and loaded, and both engines are
-// run on a probe file. Constant spellings of string / int arguments are rendered next to the plain literal.
-// Output: one JSON object per case. The helper body and the call arguments are also printed as terms of the Coq model
-// (RG.Load.Macro.dexpr) with the constant annotations go/types gives the original nodes.
+// One abstract rules file -- several rule groups, each with local helper functions (equal names across groups, nested calls,
+// parameters of every type in any order, constants in every spelling inside the bodies, arguments spelled like parameters)
+// and rules -- is rendered (a) with the helpers and (b) manually inlined (the generator substitutes on its own tree); both are
+// converted (IR, Src/Line normalised) and loaded, and both engines are run on a probe file. Constant spellings of
+// string / int arguments are rendered next to the plain literal.
+// Output: one JSON object per case. The file is also printed as a term of the Coq model (RG.Load.MacroEnv: groups of
+// statements over RG.Load.Macro.dexpr) with the constant annotations go/types gives the original nodes.
+// The command is a supervisor of a child process (hutil.Supervise): a case on which the process dies (unbounded
+// expansion: stack overflow) is reported with a.panic set.
 package main
 
 import (
+	"bufio"
 	"encoding/json"
 	"flag"
 	"fmt"
@@ -182,7 +187,7 @@ func (e *E) coq() string {
 
 type param struct {
 	name string
-	typ  string // dsl.Var | string | int
+	typ  string // dsl.Var | string | int | dsl.Matcher
 }
 
 type helper struct {
@@ -191,21 +196,85 @@ type helper struct {
 	body   *E
 }
 
-type helperCase struct {
-	helpers []helper
-	where   *E // uses the helpers
-	inlined *E // the same with every call replaced
-	// for the Coq model (single, non-nested call): body, parameters with arguments
-	modelBody *E
-	modelArgs map[string]*E
-	modelOK   bool
+// a statement of a rule group: a helper definition, a constant declaration or a rule
+type gstmt struct {
+	def     *helper
+	decl    string // `const hi = 64`
+	where   *E     // the filter as written (helper calls)
+	inlined *E     // the same with every helper call replaced by the generator
+	report  string
 }
 
-var probeVars = []string{"x", "y"}
+type group struct {
+	name    string
+	matcher string
+	stmts   []gstmt
+}
 
-// string-valued expression spellings of s: which may appear inside a helper body (no helper parameter involved)
-func strSpellings(rng *rand.Rand, s string) *E {
-	switch rng.Intn(6) {
+type fileCase struct {
+	groups     []group
+	pkgFunc    bool // a later group calls a package-level function named like an earlier group's helper
+	sameName   bool // two groups define a helper of the same name
+	nested     bool
+	unhyg      bool // a parameter is named like a selected field or like the matcher
+	paramNamed bool // an identifier argument is spelled like a parameter of the called helper
+	octal      bool // a helper body contains a legacy octal literal
+}
+
+// package-level constants; several are named like helper parameters
+type namedConst struct {
+	name  string
+	isStr bool
+	s     string
+	i     int64
+}
+
+var pkgConsts = []namedConst{
+	{"cInt64", true, "int64", 0}, {"cInt32", true, "int32", 0}, {"cA8", true, "a8", 0}, {"cOther", true, "zz", 0},
+	{"s", true, "int64", 0}, {"t", true, "int32", 0}, {"v", true, "int32", 0},
+	{"cEight", false, "", 8}, {"cFour", false, "", 4}, {"cTwo", false, "", 2},
+	{"n", false, "", 8}, {"k", false, "", 4}, {"lo", false, "", 2}, {"hi", false, "", 420}, {"w", false, "", 4}, {"cBig", false, "", 512},
+}
+
+func constsSrc() string {
+	var sb strings.Builder
+	sb.WriteString("const (\n")
+	for _, c := range pkgConsts {
+		if c.isStr {
+			fmt.Fprintf(&sb, "\t%s = %q\n", c.name, c.s)
+		} else {
+			fmt.Fprintf(&sb, "\t%s = %d\n", c.name, c.i)
+		}
+	}
+	sb.WriteString(")\n\nvar sv = \"int64\"\nvar nv = 8\n\nfunc pf(n int) bool { return n > 0 }\nfunc f(n int) bool { return n > 1 }\n")
+	return sb.String()
+}
+
+// every way to write the int v as one literal token
+func intLitSpellings(v int64) []string {
+	out := []string{
+		fmt.Sprint(v), fmt.Sprintf("0x%x", v), fmt.Sprintf("0X%X", v), fmt.Sprintf("0%o", v), fmt.Sprintf("0o%o", v), fmt.Sprintf("0O%o", v),
+		fmt.Sprintf("0b%b", v), fmt.Sprintf("0_%o", v), fmt.Sprintf("0x_%x", v), fmt.Sprintf("00%o", v),
+	}
+	if v >= 10 {
+		d := fmt.Sprint(v)
+		out = append(out, d[:1]+"_"+d[1:])
+	}
+	return out
+}
+
+// string-valued expression spellings of s which may appear inside a helper body or outside
+func strSpellings(rng *rand.Rand, s string) *E { return strSpellingsIn(rng, s, false) }
+
+// inBody: inside a helper body only literals survive the copy, so most spellings there are literals
+func strSpellingsIn(rng *rand.Rand, s string, inBody bool) *E {
+	if inBody && rng.Intn(6) != 0 {
+		if rng.Intn(3) == 0 {
+			return rawLit(s)
+		}
+		return strLit(s)
+	}
+	switch rng.Intn(7) {
 	case 0:
 		return rawLit(s)
 	case 1:
@@ -216,7 +285,12 @@ func strSpellings(rng *rand.Rand, s string) *E {
 		}
 		return strLit(s)
 	case 2:
-		return cident(constName(s), &Const{IsStr: true, S: s})
+		for _, c := range pkgConsts {
+			if c.isStr && c.s == s && c.name[0] == 'c' && rng.Intn(2) == 0 {
+				return cident(c.name, &Const{IsStr: true, S: s})
+			}
+		}
+		return strLit(s)
 	case 3:
 		return paren(strLit(s))
 	default:
@@ -224,55 +298,58 @@ func strSpellings(rng *rand.Rand, s string) *E {
 	}
 }
 
-func constName(s string) string {
-	switch s {
-	case "int64":
-		return "cInt64"
-	case "int32":
-		return "cInt32"
-	case "a8":
-		return "cA8"
-	}
-	return "cOther"
-}
+func intSpellings(rng *rand.Rand, v int64) *E { return intSpellingsIn(rng, v, false) }
 
-func intSpellings(rng *rand.Rand, v int64) *E {
-	switch rng.Intn(8) {
-	case 0:
-		return intLit(fmt.Sprintf("0x%x", v), v)
-	case 1:
+func intSpellingsIn(rng *rand.Rand, v int64, inBody bool) *E {
+	if inBody && rng.Intn(6) != 0 {
+		sp := intLitSpellings(v)
+		if rng.Intn(3) == 0 {
+			return intLit(sp[0], v)
+		}
+		return intLit(sp[rng.Intn(len(sp))], v)
+	}
+	switch rng.Intn(10) {
+	case 0, 1, 2, 3:
+		sp := intLitSpellings(v)
+		return intLit(sp[rng.Intn(len(sp))], v)
+	case 4:
 		e := bin("+", intLit(fmt.Sprint(v-1), v-1), intLit("1", 1))
 		e.C = &Const{I: v}
 		return e
-	case 2:
-		return cident(map[int64]string{8: "cEight", 4: "cFour", 2: "cTwo"}[v], &Const{I: v})
-	case 3:
-		return paren(intLit(fmt.Sprint(v), v))
-	case 4:
-		return intLit(fmt.Sprintf("0o%o", v), v)
 	case 5:
+		for _, c := range pkgConsts {
+			if !c.isStr && c.i == v && c.name[0] == 'c' && rng.Intn(2) == 0 {
+				return cident(c.name, &Const{I: v})
+			}
+		}
+		return intLit(fmt.Sprint(v), v)
+	case 6:
+		return paren(intLit(fmt.Sprint(v), v))
+	case 7:
 		e := bin("*", intLit(fmt.Sprint(v/2), v/2), intLit("2", 2))
 		e.C = &Const{I: v}
 		return e
-	case 6:
+	case 8:
 		return &E{K: "lit", LK: "LFloat", Text: fmt.Sprintf("%d.0", v), C: &Const{I: v}}
 	default:
 		return intLit(fmt.Sprint(v), v)
 	}
 }
 
+var probeVars = []string{"x", "y"}
 var typeNames = []string{"int64", "int32"}
 var sizes = []int64{8, 4, 2}
+var bigs = []int64{420, 512, 64, 8}
 
 // an atom over the variable expression v; str / num give the spelling of arguments
 func atom(rng *rand.Rand, v *E, str func(string) *E, num func(int64) *E) *E {
-	switch rng.Intn(9) {
+	switch rng.Intn(13) {
 	case 0:
 		return sel(v, "Pure")
 	case 1:
 		return sel(v, "Const")
-	case 2:
-		return bin("==", sel(v, "Text"), str("a8"))
+	case 2: // MatchedText is compared with untyped constants only (a string parameter does not type-check)
+		return bin("==", sel(v, "Text"), textConst(rng))
 	case 3:
 		return call(sel(sel(v, "Type"), "Is"), str(typeNames[rng.Intn(2)]))
 	case 4:
@@ -282,156 +359,483 @@ func atom(rng *rand.Rand, v *E, str func(string) *E, num func(int64) *E) *E {
 	case 6:
 		return call(sel(sel(v, "Text"), "Matches"), str("a8"))
 	case 7:
-		return call(sel(sel(v, "Node"), "Is"), strLit("Ident"))
-	default:
+		return call(sel(sel(v, "Node"), "Is"), strLit([]string{"Ident", "BasicLit"}[rng.Intn(2)]))
+	case 8:
 		return not(call(sel(sel(v, "Type"), "Is"), str(typeNames[rng.Intn(2)])))
+	case 9, 10:
+		return bin("==", call(sel(sel(v, "Value"), "Int")), num(bigs[rng.Intn(len(bigs))]))
+	case 11:
+		return bin("<", call(sel(sel(v, "Value"), "Int")), num(bigs[rng.Intn(len(bigs))]))
+	default:
+		return bin("==", num(sizes[rng.Intn(3)]), sel(sel(v, "Type"), "Size"))
 	}
 }
 
-func genHelperCase(rng *rand.Rand) helperCase {
-	var hc helperCase
-	// parameter names: ordinary, or named like a selected field / the matcher
-	names := []string{"v", "w", "s", "n", "Text", "Type", "m", "Pure", "Size"}
-	pv := param{names[rng.Intn(2)], "dsl.Var"}
-	if rng.Intn(4) == 0 {
-		pv.name = names[4+rng.Intn(5)]
+var textInBody bool
+
+func textConst(rng *rand.Rand) *E { return strSpellingsIn(rng, "a8", textInBody) }
+
+// the generator's own inliner: every call of a helper of the group is replaced by the helper's body with the parameters
+// substituted simultaneously, and then the calls inside the result are replaced (its own tree, no go/ast involved)
+func inlineAll(e *E, hs map[string]*helper) *E {
+	if e == nil {
+		return nil
 	}
-	h := helper{name: "f", params: []param{pv}}
-	args := map[string]*E{}
-	callArgs := []*E{}
-	av := mvar(probeVars[rng.Intn(2)])
-	if rng.Intn(4) == 0 {
-		av = paren(av)
+	if e.K == "call" && e.X.K == "ident" {
+		if h := hs[e.X.Name]; h != nil && len(h.params) == len(e.Args) {
+			// parameters first, nested calls afterwards: the names free in a nested helper's body (the matcher) are
+			// not captured by this helper's parameters
+			ps := map[string]*E{}
+			for i, p := range h.params {
+				ps[p.name] = e.Args[i]
+			}
+			return paren(inlineAll(h.body.subst(ps), hs))
+		}
 	}
-	args[pv.name] = av
-	callArgs = append(callArgs, av)
-	var ps, pn *param
+	c := *e
+	c.X = inlineAll(e.X, hs)
+	c.Y = inlineAll(e.Y, hs)
+	c.Args = nil
+	for _, a := range e.Args {
+		c.Args = append(c.Args, inlineAll(a, hs))
+	}
+	return &c
+}
+
+type scope struct {
+	rng     *rand.Rand
+	matcher string
+	local   map[string]namedConst // constants declared in the group (they shadow the package-level ones)
+	fc      *fileCase
+}
+
+func (sc *scope) constByName(name string) (namedConst, bool) {
+	if c, ok := sc.local[name]; ok {
+		return c, true
+	}
+	for _, c := range pkgConsts {
+		if c.name == name {
+			return c, true
+		}
+	}
+	return namedConst{}, false
+}
+
+func (sc *scope) mvar(name string) *E { return index(ident(sc.matcher), strLit(name)) }
+
+// an argument for a parameter of type typ at a call written at the call site (outside helper bodies); avoid: never.
+// callee: the helper being called -- identifier arguments are preferably spelled like one of its parameters
+func (sc *scope) argFor(typ string, callee *helper) *E {
+	rng := sc.rng
+	namedLike := func(isStr bool) *E {
+		var cands, all []namedConst
+		seen := map[string]bool{}
+		add := func(c namedConst) {
+			if c.isStr != isStr || seen[c.name] {
+				return
+			}
+			seen[c.name] = true
+			all = append(all, c)
+			for _, p := range callee.params {
+				if p.name == c.name {
+					cands = append(cands, c)
+				}
+			}
+		}
+		for _, c := range sc.local {
+			add(c)
+		}
+		for _, c := range pkgConsts {
+			if lc, ok := sc.local[c.name]; ok {
+				add(lc)
+			} else {
+				add(c)
+			}
+		}
+		pick := all[rng.Intn(len(all))]
+		if len(cands) > 0 && rng.Intn(3) != 0 {
+			pick = cands[rng.Intn(len(cands))]
+			sc.fc.paramNamed = true
+		}
+		if isStr {
+			return cident(pick.name, &Const{IsStr: true, S: pick.s})
+		}
+		return cident(pick.name, &Const{I: pick.i})
+	}
+	switch typ {
+	case "dsl.Var":
+		a := sc.mvar(probeVars[rng.Intn(2)])
+		if rng.Intn(5) == 0 {
+			a = paren(a)
+		}
+		return a
+	case "dsl.Matcher":
+		return ident(sc.matcher)
+	case "string":
+		s := typeNames[rng.Intn(2)]
+		switch rng.Intn(8) {
+		case 0:
+			return rawLit(s)
+		case 1:
+			return paren(strLit(s))
+		case 2, 3, 4:
+			return namedLike(true)
+		case 5:
+			if rng.Intn(4) == 0 {
+				return ident("sv") // a package-level variable: not a constant
+			}
+			return strLit(s)
+		default:
+			return strLit(s)
+		}
+	default:
+		v := append(append([]int64{}, sizes...), bigs...)[rng.Intn(7)]
+		switch rng.Intn(8) {
+		case 0, 1:
+			sp := intLitSpellings(v)
+			return intLit(sp[rng.Intn(len(sp))], v)
+		case 2:
+			return paren(intLit(fmt.Sprint(v), v))
+		case 3, 4, 5:
+			return namedLike(false)
+		case 6:
+			if rng.Intn(4) == 0 {
+				return ident("nv")
+			}
+			return intLit(fmt.Sprint(v), v)
+		default:
+			return intLit(fmt.Sprint(v), v)
+		}
+	}
+}
+
+var unhygNames = []string{"Text", "Type", "Pure", "Size", "Value"}
+
+func (sc *scope) genHelper(name string, earlier []*helper) *helper {
+	rng := sc.rng
+	h := &helper{name: name}
+	used := map[string]bool{}
+	add := func(typ string, names []string) *param {
+		for try := 0; try < 8; try++ {
+			n := names[rng.Intn(len(names))]
+			if !used[n] {
+				used[n] = true
+				h.params = append(h.params, param{n, typ})
+				return &h.params[len(h.params)-1]
+			}
+		}
+		return nil
+	}
+	varNames := []string{"v", "w"}
+	if rng.Intn(5) == 0 {
+		varNames = append(append([]string{}, unhygNames...), sc.matcher)
+		sc.fc.unhyg = true
+	}
+	nv := 1 + rng.Intn(2)
+	if rng.Intn(8) == 0 {
+		nv = 0 // the body uses the matcher directly
+	}
+	for i := 0; i < nv; i++ {
+		add("dsl.Var", varNames)
+		varNames = []string{"v", "w"}
+	}
+	for i := rng.Intn(3); i > 0; i-- {
+		add("string", []string{"s", "t"})
+	}
+	for i := rng.Intn(3); i > 0; i-- {
+		add("int", []string{"n", "k", "lo", "hi"})
+	}
+	if rng.Intn(12) == 0 && !used[sc.matcher] {
+		add("dsl.Matcher", []string{"mm", "q2"})
+	}
 	if rng.Intn(2) == 0 {
-		ps = &param{"s", "string"}
-		h.params = append(h.params, *ps)
-		a := strSpellingArg(rng, typeNames[rng.Intn(2)])
-		args["s"] = a
-		callArgs = append(callArgs, a)
+		rng.Shuffle(len(h.params), func(i, j int) { h.params[i], h.params[j] = h.params[j], h.params[i] })
 	}
-	if rng.Intn(2) == 0 {
-		pn = &param{"n", "int"}
-		h.params = append(h.params, *pn)
-		a := intSpellingArg(rng, sizes[rng.Intn(3)])
-		args["n"] = a
-		callArgs = append(callArgs, a)
+	byType := func(typ string) []string {
+		var out []string
+		for _, p := range h.params {
+			if p.typ == typ {
+				out = append(out, p.name)
+			}
+		}
+		return out
+	}
+	vars, strs, ints, mats := byType("dsl.Var"), byType("string"), byType("int"), byType("dsl.Matcher")
+	matcherShadowed := used[sc.matcher]
+	varExpr := func() *E {
+		if len(mats) > 0 && rng.Intn(3) == 0 {
+			return index(ident(mats[0]), strLit(probeVars[rng.Intn(2)]))
+		}
+		if len(vars) > 0 && (matcherShadowed || rng.Intn(5) != 0) {
+			return ident(vars[rng.Intn(len(vars))])
+		}
+		if matcherShadowed {
+			return ident(sc.matcher) // the parameter named like the matcher
+		}
+		return sc.mvar(probeVars[rng.Intn(2)]) // the body refers to the matcher directly
 	}
 	str := func(s string) *E {
-		if ps != nil && rng.Intn(2) == 0 && (s == "int64" || s == "int32") {
-			return ident("s")
+		if len(strs) > 0 && rng.Intn(2) == 0 {
+			return ident(strs[rng.Intn(len(strs))])
 		}
-		return strSpellings(rng, s)
+		return strSpellingsIn(rng, s, true)
 	}
 	num := func(v int64) *E {
-		if pn != nil && rng.Intn(2) == 0 {
-			return ident("n")
+		if len(ints) > 0 && rng.Intn(2) == 0 {
+			return ident(ints[rng.Intn(len(ints))])
 		}
-		return intSpellings(rng, v)
+		e := intSpellingsIn(rng, v, true)
+		if e.K == "lit" && e.LK == "LInt" && len(e.Text) > 1 && e.Text[0] == '0' && e.Text[1] >= '0' && e.Text[1] <= '9' {
+			sc.fc.octal = true
+		}
+		return e
 	}
-	v := ident(pv.name)
-	body := atom(rng, v, str, num)
+	textInBody = true
+	defer func() { textInBody = false }()
+	body := atom(rng, varExpr(), str, num)
 	for i := rng.Intn(3); i > 0; i-- {
-		op := []string{"&&", "||"}[rng.Intn(2)]
-		var other *E
-		if rng.Intn(3) == 0 {
-			other = atom(rng, mvar(probeVars[rng.Intn(2)]), str, num) // the body refers to the matcher directly
-		} else {
-			other = atom(rng, v, str, num)
-		}
-		body = bin(op, body, other)
+		body = bin([]string{"&&", "||"}[rng.Intn(2)], body, atom(rng, varExpr(), str, num))
 		if rng.Intn(3) == 0 {
 			body = paren(body)
 		}
 	}
+	// a nested call of an earlier helper of the group: parameters or constants as arguments
+	if len(earlier) > 0 && rng.Intn(2) == 0 {
+		g := earlier[rng.Intn(len(earlier))]
+		var args []*E
+		ok := true
+		for _, p := range g.params {
+			switch p.typ {
+			case "dsl.Var":
+				if len(vars) > 0 && rng.Intn(4) != 0 {
+					args = append(args, ident(vars[rng.Intn(len(vars))]))
+				} else if !matcherShadowed {
+					args = append(args, sc.mvar(probeVars[rng.Intn(2)]))
+				} else {
+					ok = false
+				}
+			case "string":
+				if len(strs) > 0 && rng.Intn(3) != 0 {
+					args = append(args, ident(strs[rng.Intn(len(strs))]))
+				} else {
+					args = append(args, strLit(typeNames[rng.Intn(2)]))
+				}
+			case "int":
+				if len(ints) > 0 && rng.Intn(3) != 0 {
+					args = append(args, ident(ints[rng.Intn(len(ints))]))
+				} else {
+					e := intSpellings(rng, sizes[rng.Intn(3)])
+					for e.K != "lit" {
+						e = intSpellings(rng, sizes[rng.Intn(3)])
+					}
+					if e.LK == "LInt" && len(e.Text) > 1 && e.Text[0] == '0' && e.Text[1] >= '0' && e.Text[1] <= '9' {
+						sc.fc.octal = true
+					}
+					args = append(args, e)
+				}
+			default:
+				if len(mats) > 0 {
+					args = append(args, ident(mats[0]))
+				} else if !matcherShadowed {
+					args = append(args, ident(sc.matcher))
+				} else {
+					ok = false
+				}
+			}
+		}
+		if ok && !used[g.name] {
+			body = bin([]string{"&&", "||"}[rng.Intn(2)], call(ident(g.name), args...), body)
+			sc.fc.nested = true
+		}
+	}
 	h.body = body
-	hc.helpers = []helper{h}
-	hc.where = call(ident("f"), callArgs...)
-	hc.modelBody, hc.modelArgs, hc.modelOK = body, args, true
-	inl := body.subst(args)
-	// nested helper: g calls f and adds an atom of its own
-	if rng.Intn(4) == 0 && pv.name != "m" {
-		g := helper{name: "g", params: []param{{"u", "dsl.Var"}}}
-		innerArgs := []*E{ident("u")}
-		inner := map[string]*E{pv.name: ident("u")}
-		for _, p := range h.params[1:] {
-			innerArgs = append(innerArgs, args[p.name])
-			inner[p.name] = args[p.name]
-		}
-		extra := atom(rng, ident("u"), func(s string) *E { return strLit(s) }, func(v int64) *E { return intLit(fmt.Sprint(v), v) })
-		g.body = bin("||", call(ident("f"), innerArgs...), extra)
-		hc.helpers = append(hc.helpers, g)
-		hc.where = call(ident("g"), av)
-		inl = bin("||", body.subst(inner), extra).subst(map[string]*E{"u": av})
-		hc.modelOK = false
-	}
-	// the call combined with something else at the call site
+	return h
+}
+
+var helperNames = []string{"f", "g", "h"}
+
+func genFileCase(rng *rand.Rand) fileCase {
+	var fc fileCase
+	ng := 1 + rng.Intn(3)
 	if rng.Intn(3) == 0 {
-		extra := sel(mvar("y"), "Pure")
-		hc.where = bin("&&", hc.where, extra)
-		inl = bin("&&", paren(inl), extra)
-		hc.modelOK = false
-	} else if rng.Intn(5) == 0 {
-		hc.where = not(hc.where)
-		inl = not(paren(inl))
-		hc.modelOK = false
+		ng = 1
 	}
-	hc.inlined = inl
-	return hc
-}
-
-func strSpellingArg(rng *rand.Rand, s string) *E {
-	switch rng.Intn(4) {
-	case 0:
-		return rawLit(s)
-	case 1:
-		return cident(constName(s), &Const{IsStr: true, S: s})
-	case 2:
-		return paren(strLit(s))
-	default:
-		return strLit(s)
-	}
-}
-
-func intSpellingArg(rng *rand.Rand, v int64) *E {
-	switch rng.Intn(4) {
-	case 0:
-		return intLit(fmt.Sprintf("0x%x", v), v)
-	case 1:
-		return cident(map[int64]string{8: "cEight", 4: "cFour", 2: "cTwo"}[v], &Const{I: v})
-	case 2:
-		return paren(intLit(fmt.Sprint(v), v))
-	default:
-		return intLit(fmt.Sprint(v), v)
-	}
-}
-
-const consts = `const (
-	cInt64 = "int64"
-	cInt32 = "int32"
-	cA8    = "a8"
-	cOther = "zz"
-	cEight = 8
-	cFour  = 4
-	cTwo   = 2
-)
-`
-
-func renderRules(helpers []helper, where string, pattern, report string) string {
-	var sb strings.Builder
-	sb.WriteString("package gorules\n\nimport \"github.com/quasilyte/go-ruleguard/dsl\"\n\n" + consts + "\nfunc g0(m dsl.Matcher) {\n")
-	for _, h := range helpers {
-		var ps []string
-		for _, p := range h.params {
-			ps = append(ps, p.name+" "+p.typ)
+	definedBefore := map[string]bool{}
+	for gi := 0; gi < ng; gi++ {
+		g := group{name: fmt.Sprintf("g%d", gi), matcher: "m"}
+		if rng.Intn(6) == 0 {
+			g.matcher = []string{"mt", "q"}[rng.Intn(2)]
 		}
-		fmt.Fprintf(&sb, "\t%s := func(%s) bool { return %s }\n", h.name, strings.Join(ps, ", "), h.body.src())
+		sc := &scope{rng: rng, matcher: g.matcher, local: map[string]namedConst{}, fc: &fc}
+		if rng.Intn(4) == 0 { // a constant of the group that shadows a package-level one
+			c := []namedConst{{"hi", false, "", 64}, {"n", false, "", 2}, {"s", true, "int32", 0}, {"lo", false, "", 8}}[rng.Intn(4)]
+			sc.local[c.name] = c
+			if c.isStr {
+				g.stmts = append(g.stmts, gstmt{decl: fmt.Sprintf("const %s = %q", c.name, c.s)})
+			} else {
+				g.stmts = append(g.stmts, gstmt{decl: fmt.Sprintf("const %s = %d", c.name, c.i)})
+			}
+		}
+		names := append([]string{}, helperNames...)
+		rng.Shuffle(len(names), func(i, j int) { names[i], names[j] = names[j], names[i] })
+		nh := 1 + rng.Intn(2)
+		if rng.Intn(6) == 0 {
+			nh = 3
+		}
+		var hs []*helper
+		hmap := map[string]*helper{}
+		calledBy := map[string]bool{}
+		pkgCall := gi > 0 && definedBefore["f"] && rng.Intn(10) == 0
+		for hi := 0; hi < nh; hi++ {
+			name := names[hi]
+			if pkgCall && name == "f" {
+				continue // this group calls the package-level f
+			}
+			h := sc.genHelper(name, hs)
+			hs = append(hs, h)
+			hmap[name] = h
+			if definedBefore[name] {
+				fc.sameName = true
+			}
+			// which earlier helpers does the body call
+			var walk func(e *E)
+			walk = func(e *E) {
+				if e == nil {
+					return
+				}
+				if e.K == "call" && e.X.K == "ident" {
+					calledBy[e.X.Name] = true
+				}
+				walk(e.X)
+				walk(e.Y)
+				for _, a := range e.Args {
+					walk(a)
+				}
+			}
+			walk(h.body)
+			g.stmts = append(g.stmts, gstmt{def: h})
+			// a rule between the definitions sees only the helpers defined so far
+			if hi < nh-1 && rng.Intn(4) == 0 {
+				w := sc.callOf(h)
+				calledBy[h.name] = true
+				g.stmts = append(g.stmts, gstmt{where: w, inlined: inlineAll(w, copyMap(hmap)), report: fmt.Sprintf("%s.r%d $x", g.name, len(g.stmts))})
+			}
+		}
+		// the last rule calls every helper nobody else calls (Go rejects unused local functions)
+		var where *E
+		for _, h := range hs {
+			if calledBy[h.name] {
+				continue
+			}
+			c := sc.callOf(h)
+			if rng.Intn(5) == 0 {
+				c = not(c)
+			}
+			if where == nil {
+				where = c
+			} else {
+				where = bin([]string{"&&", "||"}[rng.Intn(2)], where, c)
+			}
+		}
+		if where == nil && len(hs) > 0 {
+			where = sc.callOf(hs[len(hs)-1])
+		}
+		if pkgCall {
+			pc := call(ident("f"), intLit("8", 8))
+			if where == nil {
+				where = pc
+			} else {
+				where = bin("&&", where, pc)
+			}
+			fc.pkgFunc = true
+		}
+		switch rng.Intn(6) {
+		case 0:
+			where = bin("&&", where, sel(sc.mvar("y"), "Pure"))
+		case 1:
+			where = bin("||", sel(sc.mvar("y"), "Const"), paren(where))
+		}
+		g.stmts = append(g.stmts, gstmt{where: where, inlined: inlineAll(where, hmap), report: fmt.Sprintf("%s.r%d $x", g.name, len(g.stmts))})
+		for _, h := range hs {
+			definedBefore[h.name] = true
+		}
+		fc.groups = append(fc.groups, g)
 	}
-	fmt.Fprintf(&sb, "\tm.Match(%s).\n\t\tWhere(%s).\n\t\tReport(%s)\n}\n", pattern, where, report)
+	return fc
+}
+
+func copyMap(m map[string]*helper) map[string]*helper {
+	out := map[string]*helper{}
+	for k, v := range m {
+		out[k] = v
+	}
+	return out
+}
+
+func (sc *scope) callOf(h *helper) *E {
+	var args []*E
+	for _, p := range h.params {
+		args = append(args, sc.argFor(p.typ, h))
+	}
+	return call(ident(h.name), args...)
+}
+
+func renderFile(fc fileCase, inlined bool) string {
+	var sb strings.Builder
+	sb.WriteString("package gorules\n\nimport \"github.com/quasilyte/go-ruleguard/dsl\"\n\n" + constsSrc() + "\n")
+	for _, g := range fc.groups {
+		fmt.Fprintf(&sb, "func %s(%s dsl.Matcher) {\n", g.name, g.matcher)
+		for _, st := range g.stmts {
+			switch {
+			case st.decl != "":
+				fmt.Fprintf(&sb, "\t%s\n", st.decl)
+			case st.def != nil:
+				if inlined {
+					continue
+				}
+				var ps []string
+				for _, p := range st.def.params {
+					ps = append(ps, p.name+" "+p.typ)
+				}
+				fmt.Fprintf(&sb, "\t%s := func(%s) bool { return %s }\n", st.def.name, strings.Join(ps, ", "), st.def.body.src())
+			default:
+				w := st.where
+				if inlined {
+					w = st.inlined
+				}
+				fmt.Fprintf(&sb, "\t%s.Match(`$x + $y`).\n\t\tWhere(%s).\n\t\tReport(`%s`)\n", g.matcher, w.src(), st.report)
+			}
+		}
+		sb.WriteString("}\n\n")
+	}
 	return sb.String()
+}
+
+// the file as a term of the Coq model: list of groups, each a list of statements (RG.Load.MacroEnv)
+func coqFile(fc fileCase) string {
+	var gs []string
+	for _, g := range fc.groups {
+		var ss []string
+		for _, st := range g.stmts {
+			switch {
+			case st.def != nil:
+				var ps []string
+				for _, p := range st.def.params {
+					ps = append(ps, coqStr(p.name))
+				}
+				ss = append(ss, fmt.Sprintf("GDef (mkMacro %s [%s] %s)", coqStr(st.def.name), strings.Join(ps, "; "), st.def.body.coq()))
+			case st.where != nil:
+				ss = append(ss, "GRule "+st.where.coq())
+			}
+		}
+		gs = append(gs, fmt.Sprintf("mkGroup %s [%s]", coqStr(g.matcher), strings.Join(ss, ";\n   ")))
+	}
+	return "[" + strings.Join(gs, ";\n  ") + "]"
+}
+
+func renderRules(where string, pattern, report string) string {
+	return "package gorules\n\nimport \"github.com/quasilyte/go-ruleguard/dsl\"\n\n" + constsSrc() +
+		fmt.Sprintf("\nfunc g0(m dsl.Matcher) {\n\tm.Match(%s).\n\t\tWhere(%s).\n\t\tReport(%s)\n}\n", pattern, where, report)
 }
 
 const target = `package target
@@ -446,6 +850,17 @@ func f(a8, b8 int64, a4, b4 int32, a2, b2 int16) {
 	_ = 2 + a4
 	_ = a8 + int64(a4)
 	_ = use2(a8) + b8
+	_ = 420 + 1
+	_ = 644 + 1
+	_ = 512 + 1
+	_ = 1000 + 1
+	_ = 64 + 1
+	_ = 100 + 1
+	_ = 8 + 1
+	_ = 10 + 1
+	_ = 4 + 1
+	_ = 2 + 1
+	_ = 97 + 1
 }
 
 func use2(x int64) int64 { return x }
@@ -530,10 +945,33 @@ type Case struct {
 	A       side   `json:"a"`
 	B       side   `json:"b"`
 	IREqual bool   `json:"ir_equal"`
-	Model   string `json:"model,omitempty"` // Coq: (body, [(param, arg)...]) for single non-nested calls
-	Unhyg   bool   `json:"unhygienic"`      // a parameter is named like a selected field of the body or like the matcher
+	Model   string `json:"model,omitempty"` // Coq: the file as a list of groups (RG.Load.MacroEnv)
+	Groups  int    `json:"groups"`
+	Same    bool   `json:"same_name"`   // two groups define a helper of the same name
+	PkgFunc bool   `json:"pkg_func"`    // a later group calls a package-level function named like an earlier helper
+	Unhyg   bool   `json:"unhygienic"`  // a parameter is named like a selected field of the body or like the matcher
 	Nested  bool   `json:"nested"`
+	PNamed  bool   `json:"param_named"` // an identifier argument is spelled like a parameter of the called helper
+	Octal   bool   `json:"octal"`       // a helper body contains a legacy octal literal
 	Spell   string `json:"spelling,omitempty"`
+	Crash   bool   `json:"crash,omitempty"` // reported by the supervisor: the process died on this case
+}
+
+// Begin announces a case to the supervisor (hutil.Supervise): if the process dies while converting / loading it, the
+// supervisor reports the case with a.panic = the runtime's fatal error.
+type Begin struct {
+	Begin int    `json:"begin"`
+	Kind  string `json:"kind"`
+	SrcA  string `json:"src_a"`
+	SrcB  string `json:"src_b"`
+}
+
+func crashCase(begin []byte, kind, detail string) []byte {
+	var b Begin
+	json.Unmarshal(begin, &b)
+	out, _ := json.Marshal(Case{Kind: b.Kind, ID: b.Begin, SrcA: b.SrcA, SrcB: b.SrcB,
+		A: side{Panic: "the process died (" + kind + "): " + detail}, Crash: true})
+	return out
 }
 
 func main() {
@@ -541,9 +979,25 @@ func main() {
 	nh := flag.Int("helpers", 200, "helper cases")
 	nc := flag.Int("consts", 120, "constant spelling cases")
 	tmp := flag.String("tmp", "", "scratch directory")
+	child := flag.Bool("child", false, "internal: generate and observe (run by the supervisor)")
+	skip := flag.Int("skip", 0, "internal: generate but do not observe the cases up to this id")
 	flag.Parse()
+	if !*child {
+		os.Exit(hutil.Supervise(os.Args[1:], crashCase))
+	}
+	hutil.ChildInit()
 	rng := rand.New(rand.NewSource(*seed))
-	enc := json.NewEncoder(os.Stdout)
+	stdout := bufio.NewWriterSize(os.Stdout, 1<<16)
+	defer stdout.Flush()
+	enc := json.NewEncoder(stdout)
+	announce := func(c *Case) bool {
+		if c.ID <= *skip {
+			return false
+		}
+		enc.Encode(Begin{Begin: c.ID, Kind: c.Kind, SrcA: c.SrcA, SrcB: c.SrcB})
+		stdout.Flush()
+		return true
+	}
 	t, err := hutil.CheckTarget(*tmp, "target/target.go", []byte(target))
 	if err != nil {
 		fmt.Fprintln(os.Stderr, err)
@@ -552,24 +1006,20 @@ func main() {
 	id := 0
 	for i := 0; i < *nh; i++ {
 		id++
-		hc := genHelperCase(rng)
+		fc := genFileCase(rng)
 		c := Case{Kind: "helper", ID: id}
-		c.SrcA = renderRules(hc.helpers, hc.where.src(), "`$x + $y`", "`hit $x`")
-		c.SrcB = renderRules(nil, hc.inlined.src(), "`$x + $y`", "`hit $x`")
+		c.SrcA = renderFile(fc, false)
+		c.SrcB = renderFile(fc, true)
+		if !announce(&c) {
+			continue
+		}
 		c.A = observe(t, c.SrcA)
 		c.B = observe(t, c.SrcB)
 		c.IREqual = c.A.IR != "" && c.A.IR == c.B.IR
-		c.Nested = len(hc.helpers) > 1
-		pn := hc.helpers[0].params[0].name
-		c.Unhyg = pn != "v" && pn != "w"
-		if hc.modelOK {
-			var ps []string
-			for _, p := range hc.helpers[0].params {
-				ps = append(ps, fmt.Sprintf("(%s, %s)", coqStr(p.name), hc.modelArgs[p.name].coq()))
-			}
-			c.Model = fmt.Sprintf("(%s, [%s])", hc.modelBody.coq(), strings.Join(ps, "; "))
-		}
+		c.Groups, c.Same, c.PkgFunc, c.Unhyg, c.Nested, c.PNamed, c.Octal = len(fc.groups), fc.sameName, fc.pkgFunc, fc.unhyg, fc.nested, fc.paramNamed, fc.octal
+		c.Model = coqFile(fc)
 		enc.Encode(c)
+		stdout.Flush()
 	}
 	// constant spellings outside helper bodies
 	for i := 0; i < *nc; i++ {
@@ -578,7 +1028,7 @@ func main() {
 		v := mvar("x")
 		var spelled, plain *E
 		pat := "`$x + $y`"
-		switch rng.Intn(6) {
+		switch rng.Intn(7) {
 		case 0:
 			s := typeNames[rng.Intn(2)]
 			a := strSpellings(rng, s)
@@ -603,18 +1053,27 @@ func main() {
 			spelled = sel(index(ident("m"), &E{K: "ident", Name: spell}), "Pure")
 			plain = sel(mvar(name), "Pure")
 			c.Spell = spell
+		case 5:
+			n := bigs[rng.Intn(len(bigs))]
+			a := intSpellings(rng, n)
+			spelled, plain = bin("==", call(sel(sel(v, "Value"), "Int")), a), bin("==", call(sel(sel(v, "Value"), "Int")), intLit(fmt.Sprint(n), n))
+			c.Spell = a.src()
 		default: // the pattern and the message
 			spelled, plain = sel(v, "Pure"), sel(v, "Pure")
 			pat = []string{"\"$x \" + \"+ $y\"", "cPat", "(`$x + $y`)"}[rng.Intn(3)]
 			c.Spell = pat
 		}
 		extraConsts := "const (\n\tcX = \"x\"\n\tcY = \"y\"\n\tcPat = \"$x + $y\"\n)\n"
-		c.SrcA = strings.Replace(renderRules(nil, spelled.src(), pat, "`hit $x`"), "\nfunc g0", "\n"+extraConsts+"\nfunc g0", 1)
-		c.SrcB = strings.Replace(renderRules(nil, plain.src(), "`$x + $y`", "`hit $x`"), "\nfunc g0", "\n"+extraConsts+"\nfunc g0", 1)
+		c.SrcA = strings.Replace(renderRules(spelled.src(), pat, "`hit $x`"), "\nfunc g0", "\n"+extraConsts+"\nfunc g0", 1)
+		c.SrcB = strings.Replace(renderRules(plain.src(), "`$x + $y`", "`hit $x`"), "\nfunc g0", "\n"+extraConsts+"\nfunc g0", 1)
+		if !announce(&c) {
+			continue
+		}
 		c.A = observe(t, c.SrcA)
 		c.B = observe(t, c.SrcB)
 		c.IREqual = c.A.IR != "" && c.A.IR == c.B.IR
 		enc.Encode(c)
+		stdout.Flush()
 	}
 	_ = reflect.DeepEqual
 }
